@@ -221,10 +221,17 @@ def check(mod, tier, seed):
     silence_logging()
     mod.warmup()
     nruns = int(os.environ.get('VERIF_RUNS', cfg['runs']))
+    st_procs, st_count = None, min(nruns, cfg.get('selftest', 32))
+    if os.environ.get('VERIF_SELFTEST', '1') != '0':
+        st_procs = start_selftest(mod, tier, st_count)
     records, errors = run_batch(mod, seed, tier, nruns, nproc,
                                 wall_per_run=cfg.get('wall_per_run', 180),
                                 budget_s=cfg.get('budget_s'))
     known = load_known()
+    selftest_report = None
+    if st_procs is not None:
+        selftest_report, st_errors = finish_selftest(st_procs, records, st_count)
+        errors += st_errors
 
     probes, faults, states, nontrivial = {}, {}, set(), set()
     sim_time, sim_procs, evaluations, skipped = 0.0, 0, 0, 0
@@ -324,6 +331,7 @@ def check(mod, tier, seed):
             'components_real': mod.COMPONENTS_REAL,
             'components_stub': mod.COMPONENTS_STUB,
             'known_findings_hit': known_hit,
+            'determinism_selftest': selftest_report,
             'violations': violations_out,
             'violations_also_seen': also_seen,
             'harness_errors': errors[:10],
@@ -349,6 +357,70 @@ def check(mod, tier, seed):
             print(e)
         return 2
     return exit_code
+
+
+def digests(mod, tier, seed, count):
+    """Event-log digests of run indices 0..count-1 (used by the determinism self-test)."""
+    install_repo_on_path()
+    silence_logging()
+    mod.warmup()
+    nproc = int(os.environ.get('VERIF_PROCS', '16'))
+    saved = os.environ.get('VERIF_RUNS')
+    records, errors = run_batch(mod, seed, tier, count, nproc, wall_per_run=mod.TIERS[tier].get('wall_per_run', 180))
+    out = {}
+    for i, rec in records.items():
+        if 'res' in rec:
+            out[str(i)] = [rec['res']['digest'], sorted(v['signature'] for v in rec['res']['violations']), rec['plan_sha']]
+        else:
+            out[str(i)] = ['ERROR', [rec.get('harness_error', '?')[-200:]], '']
+    print('DIGESTS ' + json.dumps(out, sort_keys=True))
+    return 0 if not errors else 2
+
+
+def start_selftest(mod, tier, count):
+    """Starts two fresh interpreters (other PYTHONHASHSEED, other worker counts) that re-execute
+    the first `count` plans; runs concurrently with the main batch."""
+    procs = []
+    for hs, np_ in (('1', '3'), ('4242', '5')):
+        env = dict(os.environ)
+        env.pop('VERIF_PINNED', None)
+        env.pop('VERIF_RUNS', None)
+        env['VERIF_HASHSEED'] = hs
+        env['VERIF_PROCS'] = np_
+        cmd = [sys.executable, os.path.join(VERIF, 'checks', 'run.py'), mod.PROP, 'digests', tier, str(count)]
+        procs.append((hs, np_, subprocess.Popen(cmd, stdout=subprocess.PIPE, stderr=subprocess.DEVNULL, text=True, env=env)))
+    return procs
+
+
+def finish_selftest(procs, records, count):
+    """Diffs event-log digests, violation signatures and plan hashes of the variants against the main batch."""
+    mine = {}
+    for i in range(count):
+        rec = records.get(i)
+        if rec and 'res' in rec:
+            mine[str(i)] = [rec['res']['digest'], sorted(v['signature'] for v in rec['res']['violations']), rec['plan_sha']]
+    report = {'plans_compared': len(mine), 'variants': [], 'mismatches': 0}
+    errors = []
+    for hs, np_, p in procs:
+        try:
+            out, _ = p.communicate(timeout=1800)
+        except subprocess.TimeoutExpired:
+            p.kill()
+            errors.append('determinism self-test variant hashseed=%s timed out' % hs)
+            continue
+        other = None
+        for line in out.splitlines():
+            if line.startswith('DIGESTS '):
+                other = json.loads(line[len('DIGESTS '):])
+        if other is None:
+            errors.append('determinism self-test variant hashseed=%s produced no digests' % hs)
+            continue
+        bad = [i for i in mine if other.get(i) != mine[i]]
+        report['variants'].append({'PYTHONHASHSEED': hs, 'workers': int(np_), 'compared': len(mine), 'mismatches': len(bad)})
+        report['mismatches'] += len(bad)
+        if bad:
+            errors.append('NONDETERMINISM: run %s digest %s vs %s under PYTHONHASHSEED=%s workers=%s' % (bad[0], mine[bad[0]], other.get(bad[0]), hs, np_))
+    return report, errors
 
 
 def replay(mod, path, as_json=False):
